@@ -94,13 +94,13 @@ def decodeRunes (fuel : Nat) (s : Bytes) : List Nat :=
     match s with
     | [] => []
     | b0 :: rest =>
-      let bad := 0xFFFD :: decodeRunes fuel rest
+      let bad (_ : Unit) : List Nat := 0xFFFD :: decodeRunes fuel rest   -- a thunk: evaluated only on the error paths
       let cont (c : UInt8) (lo hi : UInt8) : Bool := lo ≤ c && c ≤ hi
       if b0 < 0x80 then b0.toNat :: decodeRunes fuel rest
       else if 0xC2 ≤ b0 && b0 ≤ 0xDF then
         match rest with
-        | b1 :: r => if cont b1 0x80 0xBF then ((b0.toNat &&& 0x1F) <<< 6 ||| (b1.toNat &&& 0x3F)) :: decodeRunes fuel r else bad
-        | _ => bad
+        | b1 :: r => if cont b1 0x80 0xBF then ((b0.toNat &&& 0x1F) <<< 6 ||| (b1.toNat &&& 0x3F)) :: decodeRunes fuel r else bad ()
+        | _ => bad ()
       else if 0xE0 ≤ b0 && b0 ≤ 0xEF then
         let lo : UInt8 := if b0 == 0xE0 then 0xA0 else 0x80
         let hi : UInt8 := if b0 == 0xED then 0x9F else 0xBF
@@ -108,8 +108,8 @@ def decodeRunes (fuel : Nat) (s : Bytes) : List Nat :=
         | b1 :: b2 :: r =>
           if cont b1 lo hi && cont b2 0x80 0xBF then
             ((b0.toNat &&& 0x0F) <<< 12 ||| (b1.toNat &&& 0x3F) <<< 6 ||| (b2.toNat &&& 0x3F)) :: decodeRunes fuel r
-          else bad
-        | _ => bad
+          else bad ()
+        | _ => bad ()
       else if 0xF0 ≤ b0 && b0 ≤ 0xF4 then
         let lo : UInt8 := if b0 == 0xF0 then 0x90 else 0x80
         let hi : UInt8 := if b0 == 0xF4 then 0x8F else 0xBF
@@ -117,9 +117,9 @@ def decodeRunes (fuel : Nat) (s : Bytes) : List Nat :=
         | b1 :: b2 :: b3 :: r =>
           if cont b1 lo hi && cont b2 0x80 0xBF && cont b3 0x80 0xBF then
             ((b0.toNat &&& 0x07) <<< 18 ||| (b1.toNat &&& 0x3F) <<< 12 ||| (b2.toNat &&& 0x3F) <<< 6 ||| (b3.toNat &&& 0x3F)) :: decodeRunes fuel r
-          else bad
-        | _ => bad
-      else bad
+          else bad ()
+        | _ => bad ()
+      else bad ()
 
 /-- `utf16.Encode`: surrogate pairs above the BMP; surrogate-range and out-of-range runes become U+FFFD. -/
 def utf16Units (r : Nat) : List Nat :=
